@@ -769,8 +769,8 @@ pub fn check(check: &str, tier: Tier) -> i32 {
     // Simulator determinism proof on a sample: re-execute units in other worker processes and
     // compare the complete unit reports (they contain no wall-clock data)
     let replicate: u64 = match tier {
-        Tier::Quick => 12,
-        Tier::Thorough => 96,
+        Tier::Quick => 48,
+        Tier::Thorough => 256,
     };
     let mut replicated = 0u64;
     let mut mismatches: Vec<u64> = Vec::new();
@@ -803,9 +803,9 @@ pub fn check(check: &str, tier: Tier) -> i32 {
                         break;
                     }
                     let n = sample[i];
-                    if w.is_none() {
-                        w = Worker::spawn(&check, tier, seed).ok();
-                    }
+                    // a FRESH process for every replicated unit: no compile has run in it before,
+                    // the strongest contrast to the long-lived worker that ran the unit first
+                    w = Worker::spawn(&check, tier, seed).ok();
                     let Some(worker) = w.as_mut() else { break };
                     let d = match worker.request(&format!("UNIT {n}"), UNIT_LIMIT) {
                         Ok(line) => parse_done(&line).map(|(_, j)| {
@@ -1078,13 +1078,13 @@ pub fn check(check: &str, tier: Tier) -> i32 {
         known_met.len(),
         wall
     );
+    for e in &agg.harness_errors {
+        println!("HARNESS-ERROR: {e}");
+    }
     if violations > 0 {
         return 1;
     }
     if !agg.harness_errors.is_empty() {
-        for e in &agg.harness_errors {
-            println!("HARNESS-ERROR: {e}");
-        }
         return 2;
     }
     0
